@@ -222,6 +222,7 @@ def run(facts, R):
     R.check(eb.local_ty(0) == "[u8; 48]", "layout-table", eb.path, "returns [u8; 48]", "encode returns %s" % eb.local_ty(0), eb.span)
 
     decode_rejections(facts, R)
+    format_code_flow(facts, R)
     emission(facts, R)
     length_formula(facts, R)
     # the read side of the round trip: a frame read from a stream is exactly the frame (shared with C02)
@@ -232,6 +233,42 @@ def run(facts, R):
     _c02.stream_fills_frame(cx, facts, R)
     # ... and the slice parsers hand back buf[48..48+q] as the query and buf[48+q..48+q+b] as the body (shared with C02)
     _c02.accept_guards(cx, facts, R)
+
+
+def format_code_flow(facts, R):
+    """one encoding across client routes: the code a caller passes as `query_format` is what is stamped into header.query_format
+    and `body_format` into header.body_format.  Every `MessageBuilder::query_format_code(x)` / `body_format_code(y)` whose
+    argument traces (through closure captures and spliced helpers) to a parameter or captured variable is checked against that
+    variable's name: the body code must not feed the query slot nor the query code the body slot (both are u16, the compiler cannot tell)."""
+    n = 0
+    for setter, wrong in (("query_format_code", "body"), ("body_format_code", "query")):
+        for cb, ci, ct in facts.calls_to("message::MessageBuilder::" + setter):
+            if len(ct["args"]) != 2:
+                continue
+            v = Sym(cb).op(ct["args"][1])
+            if getattr(cb, "changed", False):
+                from analysis.sym import split_eval
+                alts = split_eval(Sym(cb), ci, len(cb.blocks[ci]["stmts"]), lambda w_: w_.op(ct["args"][1])) or [({}, v)]
+            else:
+                alts = [({}, v)]
+            for _, v in alts:
+                while v[0] == "cast" and len(v) > 2 and isinstance(v[2] if isinstance(v[2], tuple) else v[1], tuple):
+                    v = v[2] if isinstance(v[2], tuple) else v[1]
+                name = None
+                if v[0] == "arg":
+                    name = v[2]
+                elif v[0] == "field" and v[1][0] == "arg" and v[1][1] == 1 and "{closure" in cb.path:
+                    name = v[2]
+                elif v[0] == "local":
+                    name = v[2]
+                if not name:
+                    continue
+                n += 1
+                R.check(wrong not in str(name).lower() or ("query" in str(name).lower() and "body" in str(name).lower()), "format-code-flow", cb.path,
+                        "%s receives its own code" % setter,
+                        "header.%s is stamped with `%s`: the caller's %s format code lands in the other slot, so this route's frame differs from every other route's for the same call"
+                        % (setter[:-5], name, wrong), ct.get("span"), "%s(%s)" % (setter, name))
+    R.floor("format-code-flow", n, 8, "format-code setters fed from a named parameter")
 
 
 def decode_rejections(facts, R):
@@ -284,8 +321,98 @@ ROUTES = (
 )
 
 
+# body emitters whose output length is declared up front by a size function of the same argument (contract of the beve crate;
+# C08 size-writer-pairs checks the pairing at every use)
+SIZED_BODY_WRITERS = {"beve::to_writer_typed_slice": "beve::typed_slice_size", "beve::to_writer_complex_slice": "beve::complex_slice_size"}
+
+
+def _sized_body_writer(b, s, t):
+    """`writer(w, x)` with header.body_length := size(x) stored in the same function: the declared-length body emitter"""
+    want = SIZED_BODY_WRITERS.get(t["callee"]["path"])
+    if want is None or len(t["args"]) != 2:
+        return False
+    x = s.op(t["args"][1])
+    for i, j, st in b.assigns():
+        names = [e["f"] for e in st["place"]["p"] if isinstance(e, dict) and "f" in e]
+        if names[-1:] == ["body_length"]:
+            v = s.rvalue(st["rv"])
+            if is_call(v, want.rsplit("::", 1)[-1]) and v[2] and v[2][0] == x:
+                return True
+    return False
+
+
+def _deref_only(e):
+    while isinstance(e, tuple) and e and e[0] == "call" and e[1].rsplit("::", 1)[-1] in ("deref", "as_ref", "borrow", "as_slice") and len(e[2]) == 1:
+        e = e[2][0]
+    return e
+
+
+def _param_index(b, src):
+    """index (1-based, as passed by callers) of the parameter `src` denotes inside b: a plain argument, or a capture of an async fn's coroutine"""
+    src = _deref_only(src)
+    if src[0] == "arg" and b.kind != "coroutine":
+        return src[1], b.path
+    if src[0] == "field" and src[1][0] == "arg" and src[1][1] == 1 and b.kind == "coroutine" and b.path.endswith("::{closure#0}"):
+        return src[2], b.path[:-len("::{closure#0}")]
+    return None, None
+
+
+def _pre_encoded_header_param(facts, b, src):
+    k, owner = _param_index(b, src)
+    if k is None or owner not in facts.bodies:
+        return False
+    ob = facts.bodies[owner]
+    if isinstance(k, str):
+        ks = [a for a in range(1, ob.argc + 1) if ob.debug_name(a) == k]
+        if len(ks) != 1:
+            return False
+        k = ks[0]
+    if "[u8; 48]" not in ob.local_ty(k):
+        return False
+    callers = facts.calls_to(owner)
+    if not callers:
+        return False
+    for cb, ci, ct in callers:
+        if k - 1 >= len(ct["args"]):
+            return False
+        v = _deref_only(Sym(cb).op(ct["args"][k - 1]))
+        if not is_call(v, "header::Header::encode"):
+            return False
+    return True
+
+
+def _length_of_emitted_payload(facts, b, s, aff_root_render, v, what):
+    """`len(X)` where X is what this function hands, next to the encoded header, to an emission route as its query / body"""
+    if not (is_call(v, "len") and v[2]):
+        return False
+    x = _deref_only(v[2][0])
+    route_fns = {p_[:-len("::{closure#0}")] if p_.endswith("::{closure#0}") else p_ for p_, _ in ROUTES}
+    for i, t in b.calls():
+        if t["callee"]["path"] not in route_fns:
+            continue
+        vals = [_deref_only(s.op(a_)) for a_ in t["args"]]
+        if not any(is_call(y, "header::Header::encode") for y in vals):
+            continue
+        ob = facts.bodies.get(t["callee"]["path"])
+        if ob is None:
+            continue
+        for k_, y in enumerate(vals):
+            if y == x and ob.debug_name(k_ + 1) == what:
+                return True
+    return False
+
+
 def emission(facts, R):
-    for path, kind in ROUTES:
+    # every function that serialises a header is an emission route: the ones the reference tree has, plus any other caller of
+    # Header::encode (a writer that now frames in place instead of delegating) - judged by the same rules
+    derived = []
+    known_routes = {p_ for p_, _ in ROUTES} | {"message::Message::into_wire_bytes"}
+    for cb, ci, ct in facts.calls_to("header::Header::encode"):
+        if cb.path not in known_routes and cb.path not in [d_[0] for d_ in derived] and "{inl#" not in cb.path:
+            derived.append((cb.path, "write_all"))
+    if derived:
+        R.note("functions outside the route table that encode a header, judged as emission routes: %s" % [d_[0] for d_ in derived])
+    for path, kind in tuple(ROUTES) + tuple(derived):
         b = facts.body(path)
         s = Sym(b)
         if kind == "extend":
@@ -294,9 +421,15 @@ def emission(facts, R):
             ems = [(i, t) for i, t in b.calls() if t["callee"]["name"] in ("write_all", "write", "write_fmt", "write_vectored", "call_once", "call", "call_mut")
                    and not t["callee"]["path"].startswith("<")]
             ems = [(i, t) for i, t in ems if t["callee"]["name"].startswith("write") or "body_writer" in render(s.op(t["args"][0]))]
+            ems = sorted(ems + [(i, t) for i, t in b.calls() if t["callee"]["path"] in SIZED_BODY_WRITERS], key=lambda x_: x_[0])
         # a route may delegate the whole emission to another (checked) route with the same message
         route_fns = {p_[:-len("::{closure#0}")] if p_.endswith("::{closure#0}") else p_ for p_, _ in ROUTES}
         dele = [(i, t) for i, t in b.calls() if t["callee"]["path"] in route_fns and t["callee"]["path"] != path]
+        if not ems and dele and all(any(is_call(_deref_only(s.op(a_)), "header::Header::encode") for a_ in dt_["args"]) for _, dt_ in dele):
+            # encodes the header here and hands it, with the payload, to the route that writes (judged there as a pre-encoded header)
+            for di_, dt_ in dele:
+                R.ok("emission-normal-form", path, "hands the encoded header to " + dt_["callee"]["path"], dt_.get("span"), "Header::encode(..) passed as an argument")
+            continue
         if not ems and len(dele) == 1:
             di, dt = dele[0]
             margs = [render_n(s.op(a)) for a in dt["args"]]
@@ -313,12 +446,16 @@ def emission(facts, R):
             txt = render_n(src) if src is not None else ""
             if src is not None and is_call(src, "header::Header::encode"):
                 cls = "H"
+            elif src is not None and _pre_encoded_header_param(facts, b, src):
+                cls = "H"       # `header: &[u8; 48]` handed in already encoded: every caller passes Header::encode(..)
             elif txt.endswith(".query") or txt in ("arg3", "arg1.query") or txt.endswith("arg1.query"):
                 cls = "Q"
             elif txt.endswith(".body") or txt.endswith("arg1.resp.body"):
                 cls = "B"
             elif t["callee"]["name"] in ("call_once", "call", "call_mut"):
                 cls = "B"   # body_writer(w): the caller-supplied body emitter
+            elif t["callee"]["path"] in SIZED_BODY_WRITERS:
+                cls = "B" if _sized_body_writer(b, s, t) else "?" + t["callee"]["path"]
             else:
                 cls = "?" + txt[:60]
             seq.append((i, cls, fs, t))
@@ -360,6 +497,9 @@ def emission(facts, R):
             R.check(w is None, "emission-normal-form", path, "non-empty %s always emitted" % nm, "a successful return is reachable that skips a non-empty %s" % nm, b.span, path=w)
         # header source
         hsrc = s.op(ht["args"][1])
+        if not is_call(hsrc, "header::Header::encode"):
+            R.ok("emission-normal-form", path, "emits the header its callers encoded", ht.get("span"), "every caller passes Header::encode(..) for this parameter (judged at the callers)")
+            continue
         hx = render_n(hsrc[2][0])
         R.check(hx in ("arg1.header", "arg2.header", "arg2", "arg1.msg.header") or hx.endswith(".header") or hx.endswith("header"), "emission-normal-form", path, "encodes the message's header",
                 "header emitted is encode(%s)" % hx, ht.get("span"), "encode(%s)" % hx)
@@ -524,7 +664,23 @@ def into_wire_bytes(facts, R):
             idx = _feeding_call(b, op_place(t["args"][0]), ("index_mut",))
             src = s.op(t["args"][1])
             if idx is None:
-                regions.append(("?", None, None))
+                # `let (h, q) = body[a..e].split_at_mut(m)`: h = [a, a+m), q = [a+m, e)
+                dv = s.op(t["args"][0])
+                half = None
+                if dv[0] == "field" and dv[2] in ("0", "1") and is_call(dv[1], "split_at_mut") and len(dv[1]) > 3 and len(dv[1][2]) == 2:
+                    sp_bb = dv[1][3]
+                    sp_t = b.term(sp_bb)
+                    inner = _feeding_call(b, op_place(sp_t["args"][0]), ("index_mut",))
+                    mid = aff.op_form(aff.state_at(term_pt(b, sp_bb)), sp_t["args"][1])
+                    if inner is not None and mid is not None:
+                        rb0 = aff.range_bounds(aff.state_at(term_pt(b, inner[0])), inner[1]["args"][1])
+                        if rb0 and rb0[1] is not None and rb0[2] is not None:
+                            half = (rb0[1], rb0[1].add(mid)) if dv[2] == "0" else (rb0[1].add(mid), rb0[2])
+                if half is None:
+                    regions.append(("?", None, None))
+                    continue
+                cls = "H" if is_call(src, "header::Header::encode") else "Q" if render_n(src).endswith("query") else "?"
+                regions.append((cls, str(half[0]), str(half[1])))
                 continue
             st = aff.state_at(term_pt(b, idx[0]))
             rb = aff.range_bounds(st, idx[1]["args"][1])
@@ -635,6 +791,12 @@ def length_formula(facts, R):
             v = s.rvalue(w["rv"])
             txt = render(v)
             ok = (is_call(v, "len") and (txt.endswith(".%s)" % what) or txt.endswith("(%s)" % what))) or (fld == "body_length" and txt == "body_len")
+            if not ok and _length_of_emitted_payload(facts, b, s, None, v, what):
+                ok = True
+            if not ok and fld == "body_length" and v[0] == "call":
+                # declared length of a body written by the paired beve writer over the same argument, in this function
+                ok = any(_sized_body_writer(b, s, t_) and SIZED_BODY_WRITERS[t_["callee"]["path"]].rsplit("::", 1)[-1] == v[1].rsplit("::", 1)[-1]
+                         for _, t_ in b.calls() if t_["callee"]["path"] in SIZED_BODY_WRITERS)
             k += 1
             R.check(ok, "length-formula", b.path, "%s = len(%s)" % (fld, what), "%s := %s" % (fld, txt), w["span"], txt)
         R.floor("length-formula", k, 3 if fld == "query_length" else 2, "stores to Header." + fld)
